@@ -136,6 +136,22 @@ let () =
                Printf.sprintf "it=%d E=%s C=%s F=%s ST=%d FS=%d W=%s"
                  (int_of_z it) (hex e) (cvl s.gs_centers) (cvl f) (int_of_z s.gs_stage) (int_of_z s.gs_first) (hex s.gs_W)) m.gm_outs in
            Printf.printf "%s\n" (String.concat " ; " outs)
+         | "TIRUN" ->
+           (* TIRUN same lower width nb it0 nev {S|B|R x tf fb} -> per event "c0:s0 c1:s1 .." separated by " ; " *)
+           let same = nb () in let lower = nf () in let width = nf () in let nbins = ni () in let it0 = nz () in
+           let c = { ti_lower = lower; ti_width = width; ti_nb = z_of_int nbins; ti_same = same } in
+           let nev = ni () in
+           let m = ref (ti_init_m fops it0) in
+           let outs = ref [] in
+           for _ = 1 to nev do
+             let t = next () in let x = nf () in let tf = nf () in let fb = nf () in
+             let i = { in_x = x; in_tf = tf; in_fb = fb } in
+             m := ti_mstep fops c !m (match t with "S" -> TStep i | "B" -> TBoundary i | _ -> TRestart i);
+             let s = (!m).tm_st in
+             outs := !outs @ [String.concat " " (List.init nbins (fun b ->
+                 Printf.sprintf "%d:%s" (int_of_z (s.ts_cnt (z_of_int b))) (hex (s.ts_sum (z_of_int b)))))]
+           done;
+           Printf.printf "%s\n" (String.concat " ; " !outs)
          | _ -> Printf.printf "?\n")
       end
     done
